@@ -240,104 +240,10 @@ func checkC08(w *World, r *Report) {
 	})
 
 	r.Rule("R08.7", "escape substitution state: the 'previous backslash pair' flag can be set only by an empty piece and is false after every non-empty piece", 1)
-	r.guard("R08.7", func() {
-		fd, fp := w.FuncDecl(w.Func("parse", "escapeSequenceSubstitution"))
-		// the flag: a local bool assigned true somewhere
-		var flag types.Object
-		ast.Inspect(fd.Body, func(n ast.Node) bool {
-			if as, ok := n.(*ast.AssignStmt); ok && len(as.Lhs) == 1 && len(as.Rhs) == 1 {
-				if v := ConstOf(fp, as.Rhs[0]); v != nil && v.Kind() == constant.Bool && constant.BoolVal(v) {
-					flag = objOfIdent(fp, as.Lhs[0])
-				}
-			}
-			return true
-		})
-		if flag == nil {
-			panic(undecided{"escapeSequenceSubstitution: state flag"})
-		}
-		flagFalse := func(e ast.Expr) bool { // condition implies flag == false
-			for _, c := range flattenAnd(e) {
-				c = ast.Unparen(c)
-				if u, ok := c.(*ast.UnaryExpr); ok && u.Op == token.NOT && objOfIdent(fp, u.X) == flag {
-					return true
-				}
-				if be, ok := c.(*ast.BinaryExpr); ok && be.Op == token.EQL && objOfIdent(fp, be.X) == flag {
-					if v := ConstOf(fp, be.Y); v != nil && !constant.BoolVal(v) {
-						return true
-					}
-				}
-			}
-			return false
-		}
-		assigns := func(n ast.Node, val bool) bool {
-			found := false
-			ast.Inspect(n, func(x ast.Node) bool {
-				if as, ok := x.(*ast.AssignStmt); ok && len(as.Lhs) == 1 && objOfIdent(fp, as.Lhs[0]) == flag {
-					if v := ConstOf(fp, as.Rhs[0]); v != nil && constant.BoolVal(v) == val {
-						found = true
-					}
-				}
-				return true
-			})
-			return found
-		}
-		// locate the loop body; the statement(s) after the `if st == "" { … continue }`
-		ok := false
-		why := "loop shape not recognised"
-		ast.Inspect(fd.Body, func(n ast.Node) bool {
-			rs, isR := n.(*ast.RangeStmt)
-			if !isR {
-				return true
-			}
-			var rest []ast.Stmt
-			for i, s := range rs.Body.List {
-				if is, isIf := s.(*ast.IfStmt); isIf {
-					if be, isB := ast.Unparen(is.Cond).(*ast.BinaryExpr); isB && be.Op == token.EQL {
-						if v, isS := ConstStr(fp, be.Y); isS && v == "" {
-							rest = rs.Body.List[i+1:]
-							// the only place that may set the flag
-							if assigns(&ast.BlockStmt{List: rest}, true) {
-								why = "the flag is set while handling a non-empty piece"
-								return false
-							}
-						}
-					}
-				}
-			}
-			if rest == nil {
-				return true
-			}
-			// every path through rest ends with flag false
-			allFalse := true
-			for _, s := range rest {
-				is, isIf := s.(*ast.IfStmt)
-				if !isIf {
-					continue
-				}
-				if !(flagFalse(is.Cond) && !assigns(is.Body, true)) && !assigns(is.Body, false) {
-					allFalse = false
-				}
-				if is.Else != nil {
-					if !assigns(is.Else, false) {
-						allFalse = false
-					}
-				} else if !flagFalse(is.Cond) {
-					// no else: the fall-through path keeps whatever the flag was
-					allFalse = false
-				}
-			}
-			if allFalse {
-				ok = true
-			} else {
-				why = "after a non-empty piece the flag can still be true: a later escape in the same string is then copied undecoded (\"a\\\\\\\\b\\\\tc\")"
-			}
-			return false
-		})
-		r.Check(ok, "R08.7", "escapeSequenceSubstitution flag discipline", fd.Pos(), "flag false after every non-empty piece", why)
-	})
+	r.guard("R08.7", func() { c08EscapeFlag(w, r, "R08.7") })
 
 	r.Rule("R08.10", "a comment ends at the first terminator after its opener: where the opener's tail can be read as the head of the terminator (\"/*\" then \"/\"), the terminator search starts after the whole opener", 2)
-	r.guard("R08.10", func() { c08CommentSearchStart(w, r) })
+	r.guard("R08.10", func() { c08CommentSearchStart(w, r, "R08.10") })
 
 	r.Rule("R08.8", "every line of a multi-line double-quoted string contributes to the result: in trimWhitespace's per-line loop the accumulation (result += line, or Builder.WriteString) dominates every way back to the loop head — no line (blank ones included) is skipped together with its line break", 1)
 	r.Rule("R08.9", "lines are decoded independently: apart from the result and the loop counter, no value computed from one line is carried into the next iteration of trimWhitespace's per-line loop (every other loop-carried variable re-enters the loop as a constant)", 1)
@@ -578,41 +484,23 @@ func checkC10(w *World, r *Report) {
 	})
 
 	r.Rule("R10.4", "a comment ends at the first terminator after its opener: the scanner steps over the opener before it searches for the terminator", 2)
-	r.guard("R10.4", func() {
-		pos := w.Field("parse", "lexer", "pos")
-		for _, cn := range []string{"lexComment", "lexCommentLine"} {
-			fd, _ := w.FuncDecl(w.Func("parse", cn))
-			advIdx, searchIdx := -1, -1
-			for i, s := range fd.Body.List {
-				if as, ok := s.(*ast.AssignStmt); ok && as.Tok == token.ADD_ASSIGN && fieldOfSel(p, as.Lhs[0]) == pos && advIdx < 0 {
-					// += Pos(len(<opener const>))
-					isLen := false
-					ast.Inspect(as.Rhs[0], func(x ast.Node) bool {
-						if ce, ok := x.(*ast.CallExpr); ok {
-							if id, ok := ce.Fun.(*ast.Ident); ok && id.Name == "len" {
-								if v, ok := ConstStr(p, ce.Args[0]); ok && len(v) == 2 {
-									isLen = true
-								}
-							}
-						}
-						return true
-					})
-					if isLen {
-						advIdx = i
-					}
-				}
-				ast.Inspect(s, func(x ast.Node) bool {
-					if ce, ok := x.(*ast.CallExpr); ok {
-						if c := calleeOf(p, ce); c != nil && c.FullName() == "strings.Index" && searchIdx < 0 {
-							searchIdx = i
-						}
-					}
-					return true
-				})
-			}
-			r.Check(advIdx >= 0 && searchIdx > advIdx, "R10.4", cn+" skips its opener first", fd.Pos(), "pos += len(opener) before strings.Index", "the terminator search starts on the opener itself: '/*/' would count as a complete comment and commented-out statements would be parsed")
+	r.guard("R10.4", func() { c08CommentSearchStart(w, r, "R10.4") })
+
+	r.Rule("R10.6", "token boundaries do not depend on blanks: the characters that end an unquoted word are exactly those RFC 6020 §6.1.3 excludes from an unquoted string — SP, TAB, CR, LF, the two quote characters, ';', '{', '}' — and end of input", 1)
+	r.guard("R10.6", func() {
+		pe := NewPredEval(w, intDom{})
+		got := pe.TrueSet(w.Func("parse", "isTerminator")).(ISet)
+		eofV, ok := pkgConstInt(w, "parse", "eof")
+		if !ok {
+			panic(undecided{"parse.eof"})
 		}
+		want := isetOf(eofV, ' ', '\t', '\r', '\n', '\'', '"', ';', '{', '}')
+		r.Check(got.equal(want), "R10.6", "isTerminator", token.NoPos, got.String(),
+			"an unquoted word ends at "+got.String()+", RFC 6020 §6.1.3 says "+want.String()+" (missing "+want.minus(got).String()+", extra "+got.minus(want).String()+"): a keyword written directly before such a character is not split from it, so removing a blank changes the tree")
 	})
+
+	r.Rule("R10.7", "equivalent quotings decode alike: the escape-substitution state flag is false after every non-empty piece (same obligation as R08.7, which this property relies on for 'another quoting form of the same value')", 1)
+	r.guard("R10.7", func() { c08EscapeFlag(w, r, "R10.7") })
 
 	r.Rule("R10.5", "line/column bookkeeping: the 'no earlier line break' test on the LastIndex result treats index 0 as found", 2)
 	r.guard("R10.5", func() {
@@ -654,4 +542,101 @@ func checkC10(w *World, r *Report) {
 			r.Check(good && !bad, "R10.5", "Tree."+m+" not-found test", fd.Pos(), "== -1 / < 0", "a line break at byte 0 is treated as 'not found': columns on line 2 are counted from the start of the text")
 		}
 	})
+}
+
+// c08EscapeFlag: flag discipline of escapeSequenceSubstitution (shared by C08 and C10).
+func c08EscapeFlag(w *World, r *Report, rule string) {
+		fd, fp := w.FuncDecl(w.Func("parse", "escapeSequenceSubstitution"))
+		// the flag: a local bool assigned true somewhere
+		var flag types.Object
+		ast.Inspect(fd.Body, func(n ast.Node) bool {
+			if as, ok := n.(*ast.AssignStmt); ok && len(as.Lhs) == 1 && len(as.Rhs) == 1 {
+				if v := ConstOf(fp, as.Rhs[0]); v != nil && v.Kind() == constant.Bool && constant.BoolVal(v) {
+					flag = objOfIdent(fp, as.Lhs[0])
+				}
+			}
+			return true
+		})
+		if flag == nil {
+			panic(undecided{"escapeSequenceSubstitution: state flag"})
+		}
+		flagFalse := func(e ast.Expr) bool { // condition implies flag == false
+			for _, c := range flattenAnd(e) {
+				c = ast.Unparen(c)
+				if u, ok := c.(*ast.UnaryExpr); ok && u.Op == token.NOT && objOfIdent(fp, u.X) == flag {
+					return true
+				}
+				if be, ok := c.(*ast.BinaryExpr); ok && be.Op == token.EQL && objOfIdent(fp, be.X) == flag {
+					if v := ConstOf(fp, be.Y); v != nil && !constant.BoolVal(v) {
+						return true
+					}
+				}
+			}
+			return false
+		}
+		assigns := func(n ast.Node, val bool) bool {
+			found := false
+			ast.Inspect(n, func(x ast.Node) bool {
+				if as, ok := x.(*ast.AssignStmt); ok && len(as.Lhs) == 1 && objOfIdent(fp, as.Lhs[0]) == flag {
+					if v := ConstOf(fp, as.Rhs[0]); v != nil && constant.BoolVal(v) == val {
+						found = true
+					}
+				}
+				return true
+			})
+			return found
+		}
+		// locate the loop body; the statement(s) after the `if st == "" { … continue }`
+		ok := false
+		why := "loop shape not recognised"
+		ast.Inspect(fd.Body, func(n ast.Node) bool {
+			rs, isR := n.(*ast.RangeStmt)
+			if !isR {
+				return true
+			}
+			var rest []ast.Stmt
+			for i, s := range rs.Body.List {
+				if is, isIf := s.(*ast.IfStmt); isIf {
+					if be, isB := ast.Unparen(is.Cond).(*ast.BinaryExpr); isB && be.Op == token.EQL {
+						if v, isS := ConstStr(fp, be.Y); isS && v == "" {
+							rest = rs.Body.List[i+1:]
+							// the only place that may set the flag
+							if assigns(&ast.BlockStmt{List: rest}, true) {
+								why = "the flag is set while handling a non-empty piece"
+								return false
+							}
+						}
+					}
+				}
+			}
+			if rest == nil {
+				return true
+			}
+			// every path through rest ends with flag false
+			allFalse := true
+			for _, s := range rest {
+				is, isIf := s.(*ast.IfStmt)
+				if !isIf {
+					continue
+				}
+				if !(flagFalse(is.Cond) && !assigns(is.Body, true)) && !assigns(is.Body, false) {
+					allFalse = false
+				}
+				if is.Else != nil {
+					if !assigns(is.Else, false) {
+						allFalse = false
+					}
+				} else if !flagFalse(is.Cond) {
+					// no else: the fall-through path keeps whatever the flag was
+					allFalse = false
+				}
+			}
+			if allFalse {
+				ok = true
+			} else {
+				why = "after a non-empty piece the flag can still be true: a later escape in the same string is then copied undecoded (\"a\\\\\\\\b\\\\tc\")"
+			}
+			return false
+		})
+		r.Check(ok, rule, "escapeSequenceSubstitution flag discipline", fd.Pos(), "flag false after every non-empty piece", why)
 }
